@@ -145,7 +145,8 @@ def main(argv=None):
 
     known, fixed = load_known()
     n_inst = sum(len(r.instances) for r in results)
-    n_ok = sum(1 for r in results for i in r.instances if i['ok'])
+    n_ok = sum(1 for r in results for i in r.instances if i['ok'] and not i.get('undecided'))
+    n_undec = sum(1 for r in results for i in r.instances if i.get('undecided'))
     distinct_nontrivial = len({(i['rule'], i['desc']) for r in results for i in r.instances if i.get('nontrivial')})
     print('[%s] tier=%s facts=%s (%s) bodies=%s' % (prop, a.tier, fact_hash,
                                                   'cached' if info.get('cached') else 'extracted in %.1fs' % info.get('seconds', 0),
@@ -155,7 +156,7 @@ def main(argv=None):
             r.rule, len(r.instances), len(r.violations), r.clause))
         if a.v:
             for i in r.instances:
-                print('      %s %s' % ('ok ' if i['ok'] else 'BAD', i['desc']))
+                print('      %s %s' % ('?? ' if i.get('undecided') else 'ok ' if i['ok'] else 'BAD', i['desc']))
         for n in r.notes:
             print('      note: ' + n)
     new = []
@@ -187,6 +188,7 @@ def main(argv=None):
         for i in r.instances[:3]:
             samples.append({k: i[k] for k in i if k in ('rule', 'desc', 'ok', 'site', 'guard', 'terms')})
     per_rule = {r.rule: {'instances': len(r.instances), 'violations': len(r.violations), 'clause': r.clause,
+                         'undecided': [i['desc'] for i in r.instances if i.get('undecided')],
                          'floor': r.floor} for r in results}
     ev = {
         'property_id': prop,
@@ -198,6 +200,7 @@ def main(argv=None):
                            'extracted from /repo\'s current working tree on this run; no code of /repo is executed.',
             'obligations': n_inst,
             'discharged': n_ok,
+            'undecided': n_undec,
             'evaluations': max(n_inst, 1),
             'distinct_nontrivial': distinct_nontrivial,
             'rule': 'one obligation per rule instance discovered from the MIR facts (call sites, container '
@@ -222,8 +225,8 @@ def main(argv=None):
     }
     with open(evid_path, 'w') as fh:
         json.dump(ev, fh, indent=1)
-    print('[%s] obligations=%d discharged=%d known=%d new=%d wall=%.2fs' % (
-        prop, n_inst, n_ok, len(matched), len(new), time.time() - t0))
+    print('[%s] obligations=%d discharged=%d%s known=%d new=%d wall=%.2fs' % (
+        prop, n_inst, n_ok, ' undecided=%d' % n_undec if n_undec else '', len(matched), len(new), time.time() - t0))
     return exit_code
 
 
